@@ -15,6 +15,9 @@ d = "".join(difflib.unified_diff(src.splitlines(True), dst.splitlines(True), "a/
 open(os.path.join(HERE, "mutants", name + ".diff"), "w").write(d)
 idx = json.load(open(os.path.join(HERE, "mutants", "index.json")))
 idx = [m for m in idx if m["patch"] != name + ".diff"]
-idx.append({"patch": name + ".diff", "checks": checks.split(","), "what": what})
+ent = {"patch": name + ".diff", "checks": checks.split(","), "what": what}
+if name.startswith("benign-"):
+    ent["expect"] = "silent"
+idx.append(ent)
 json.dump(idx, open(os.path.join(HERE, "mutants", "index.json"), "w"), indent=1)
 print("ok", name)
